@@ -78,7 +78,10 @@ func domainFor(prop string) domain {
 	switch prop {
 	case "C02":
 		d.g = []int{1, 1, 2, 8}
-	case "C10", "C15", "C03":
+	case "C10":
+		// mostly clean runs; element failures exercise "End hook never after a failed element"
+		d.pFault, d.perUnit, d.panics, d.elemFault = 0.3, 0, 0.4, 0.3
+	case "C15", "C03":
 	case "C01":
 		d.pFault, d.perUnit, d.panics = 0.4, 0.2, 0.3
 	case "C04":
